@@ -648,36 +648,232 @@ Bytes = _Bytes(False)
 ByteArray = _Bytes(True)
 
 
-class MutObjOf(Kind):
-    """A *materialised* (mutable) object of exactly the given class with fresh field values satisfying the class
-       invariant: used for parameters / results such as the bit reader / writer whose fields callees modify."""
 
-    def __init__(self, clsname: str):
+# --------------------------------------------------------------------------------------------------------------
+# Mutable object graphs (builders): materialised nested objects, concrete-length lists of them, defunctionalised closures
+class SymClosure:
+    """A closure stored in a field, defunctionalised: `tag` 0 = None, k >= 1 = the lambda of the k-th site (a function of
+    the repository that contains exactly one lambda); `slots` are the values of the site function's non-self parameters
+    (by position) that the lambda captured; `owner` is the object bound to the site function's `self`."""
+
+    def __init__(self, tag, sites, slots, owner=None):
+        self.tag = tag
+        self.sites = list(sites)
+        self.slots = list(slots)
+        self.owner = owner
+
+    def __repr__(self):
+        return "<SymClosure tag=%s>" % (self.tag,)
+
+
+class ClosureOf(Kind):
+    def __init__(self, sites, slots):
+        self.sites = list(sites)      # qualified names of the functions whose (single) lambda may be stored
+        self.slot_kinds = list(slots)
+
+    def build(self, ctx, mk):
+        tag = mk("!tag", z3.IntSort())
+        ctx.assume(z3.And(tag >= 0, tag <= len(self.sites)))
+        slots = [k.build(ctx, lambda s, so, i=i: mk("!slot%d%s" % (i, s), so)) for i, k in enumerate(self.slot_kinds)]
+        for v in slots:
+            ctx.engine.assume_wellformed(ctx, v)
+        return SymClosure(tag, self.sites, slots)
+
+    def sort(self):
+        raise EngineLimit("ClosureOf has no single sort")
+
+
+class MutObjOf(Kind):
+    """A materialised (mutable) object of exactly the given class; its fields are built from the class specification
+    (or from `overrides`).  Closures stored in its fields are bound to it."""
+
+    def __init__(self, clsname: str, **overrides):
         self.clsname = clsname
+        self.overrides = overrides
 
     def build(self, ctx, mk):
         eng = ctx.engine
         cls = eng.repo.cls(self.clsname)
-        ref = mk("!ref", RefSort)
+        ref = mk("", RefSort)
         ctx.assume(eng.tag_fn(ref) == eng.class_id(cls))
+        kinds = dict(eng.all_field_kinds(cls))
+        kinds.update(self.overrides)
         fields = {}
-        for n, k in eng.all_field_kinds(cls).items():
-            fields[n] = k.build(ctx, lambda s, so, n=n: mk("." + n + s, so))
-        o = Obj(cls, True, ref, fields, ctx)
+        obj = Obj(cls, True, ref, fields, ctx)
+        for n, k in kinds.items():
+            if isinstance(k, Kind):
+                v = k.build(ctx, lambda s, so, n=n: mk("." + n + s, so))
+                eng.assume_wellformed(ctx, v)
+            else:
+                v = k
+            fields[n] = v
+        bind_owner(obj)
+        return obj
+
+    def sort(self):
+        raise EngineLimit("MutObjOf has no single sort")
+
+    def __repr__(self):
+        return "%s%s" % (self.clsname.split(".")[-1], "{%s}" % ",".join("%s=%r" % kv for kv in sorted(self.overrides.items()))
+                         if self.overrides else "")
+
+
+class ListK(Kind):
+    """A Python list of concrete length whose items are built from the given kinds."""
+
+    def __init__(self, *kinds):
+        self.kinds = list(kinds)
+
+    def build(self, ctx, mk):
+        return PyList([k.build(ctx, lambda s, so, i=i: mk("[%d]%s" % (i, s), so)) for i, k in enumerate(self.kinds)])
+
+    def __repr__(self):
+        return "list-of-%d" % len(self.kinds)
+
+    def sort(self):
+        raise EngineLimit("ListK has no single sort")
+
+
+def bind_owner(obj: "Obj"):
+    """Closures stored in fields of a materialised object capture that object as `self`; owned lists may be mutated."""
+    for v in obj.fields.values():
+        if isinstance(v, SymClosure) and v.owner is None:
+            v.owner = obj
+        if isinstance(v, SymSeq):
+            v.owned = True
+
+
+class Recorder:
+    """An abstract callable received from the environment (e.g. a print handler): every call is recorded
+    (positional arguments) in `calls`; it returns None and raises nothing (assumed for handlers)."""
+
+    def __init__(self, name="callable"):
+        self.name = name
+        self.calls = PyList([])
+
+    def __repr__(self):
+        return "<Recorder %s %d calls>" % (self.name, len(self.calls.items))
+
+
+class RecorderK(Kind):
+    def __init__(self, name="callable"):
+        self.name = name
+
+    def build(self, ctx, mk):
+        return Recorder(self.name)
+
+    def sort(self):
+        raise EngineLimit("RecorderK has no single sort")
+
+
+class TupleK(Kind):
+    """A Python tuple of fixed length whose components are built from the given kinds (a Const for fixed values)."""
+
+    def __init__(self, *kinds):
+        self.kinds = list(kinds)
+
+    def build(self, ctx, mk):
+        out = []
+        for i, k in enumerate(self.kinds):
+            v = k.build(ctx, lambda s, so, i=i: mk("(%d)%s" % (i, s), so))
+            ctx.engine.assume_wellformed(ctx, v)
+            out.append(v)
+        return tuple(out)
+
+    def sort(self):
+        raise EngineLimit("TupleK has no single sort")
+
+    def __repr__(self):
+        return "tuple-of-%d" % len(self.kinds)
+PathSort = z3.DeclareSort("Path")
+
+
+class PathV:
+    """A pathlib pure path: opaque term; .parent/.stem/.name/.parts are uninterpreted functions (libmodel.path_attr)."""
+
+    def __init__(self, term):
+        self.term = term
+
+    def __repr__(self):
+        return "<Path %s>" % self.term
+
+
+class _PathK(Kind):
+    def sort(self):
+        return PathSort
+
+    def wrap(self, ctx, term):
+        return PathV(term)
+
+    def unwrap(self, v):
+        if isinstance(v, PathV):
+            return v.term
+        raise EngineLimit("expected a path, got %r" % (v,))
+
+    def __repr__(self):
+        return "PathK"
+
+
+PathK = _PathK()
+
+
+class _StrSet(Kind):
+    """A Python set of strings."""
+
+    def sort(self):
+        return StrSetSort
+
+    def wrap(self, ctx, term):
+        return SymSet(term, z3.StringSort())
+
+    def unwrap(self, v):
+        if isinstance(v, SymSet):
+            return v.term
+        raise EngineLimit("expected a set of strings, got %r" % (v,))
+
+    def __repr__(self):
+        return "StrSet"
+
+
+StrSet = _StrSet()
+PyValSort = z3.DeclareSort("PyVal")
+
+
+class _Val(Kind):
+    """An immutable Python value that is only compared and hashed (e.g. a frozenset of objects): uninterpreted sort;
+    `==` is term equality and hash() an uninterpreted function of the term (ASSUMED: hash consistent with ==)."""
+
+    def sort(self):
+        return PyValSort
+
+    def wrap(self, ctx, term):
+        return term
+
+    def unwrap(self, v):
+        return v
+
+    def __repr__(self):
+        return "Val"
+
+
+Val = _Val()
+
+
+# --------------------------------------------------------------------------------------------------------------
+class MutInvObjOf(MutObjOf):
+    """MutObjOf whose object additionally satisfies its class invariant (parameters / results such as the bit reader /
+       writer: every method of the class re-establishes the invariant, see `invariant_at_calls`)."""
+
+    def build(self, ctx, mk):
+        o = MutObjOf.build(self, ctx, lambda s, so: mk("!ref" + s if s == "" else s, so))
         from .symexec import lift_bool
 
-        for label, inv in eng.class_invariants(ctx, o):
+        for label, inv in ctx.engine.class_invariants(ctx, o):
             ctx.assume(lift_bool(inv))
         return o
 
-    def sort(self):
-        return RefSort
-
-    def unwrap(self, v):
-        return v.ref
-
     def __repr__(self):
-        return "MutObjOf(%s)" % self.clsname
+        return "MutInvObjOf(%s)" % self.clsname
 
 
 class _AnyValue(Kind):
